@@ -30,6 +30,10 @@ IDENTITIES = [
     ("unique-no-adjacent-equal", "if type == \"array\" and (unique|length) > 1 then ([unique|.[:-1], .[1:]] | transpose | all(.[0] < .[1])) else true end"),
     ("assignment-hits-the-path", ". as $x | all(paths; . as $p | ($x | setpath($p; \"Z\") | getpath($p)) == \"Z\")"),
     ("assignment-leaves-siblings", ". as $x | [paths] as $ps | all($ps[]; . as $p | ($x | setpath($p; \"Z\")) as $y | all($ps[]; . as $q | if ($q[:($p|length)] == $p) or ($p[:($q|length)] == $q) then true else ($y|getpath($q)) == ($x|getpath($q)) end))"),
+    ("order-antisymmetric", "if type == \"array\" then ([.[] as $x | .[] as $y | (($x < $y) and ($y < $x))] | any | not) else true end"),
+    ("order-total", "if type == \"array\" then ([.[] as $x | .[] as $y | (($x < $y) or ($y < $x) or ($x == $y))] | all) else true end"),
+    ("sort-independent-of-input-order", "if type == \"array\" then sort == (reverse|sort) else true end"),
+    ("unique-independent-of-input-order", "if type == \"array\" then unique == (reverse|unique) else true end"),
     ("add-of-singletons", "if type == \"array\" then ([.[]|[.]]|add) == (if length == 0 then null else . end) else true end"),
     ("keys-sorted", "if type == \"object\" then (keys == (keys_unsorted|sort)) else true end"),
     ("reverse-involution", "if type == \"array\" or type == \"string\" then (reverse|reverse) == . else true end"),
@@ -52,7 +56,7 @@ def rule_identities(progs, tier, name="JQIDENT", floor_share=0.5):
         out.append(res)
         I = Interp(P, max_steps=1500000, max_depth=600)
         I.features = {"avx2": True, "bmi2": True, "sse4.1": True, "sse4.2": True, "ssse3": True, "sse2": True}
-        values = VALUES if tier == "thorough" else ["null", "1.5", '"é 日本 😀"', '"%41 +/?&=#"', "[3,1,2,1,3]", '[null,false,true,0,-1,"a","A","",[],[0],{},{"a":1}]', "[[1],[0,1],[],[1,0]]", '{"b":1,"a":2}', '{"a":{"b":[1,2,{"c":null}]},"d":"x"}']
+        values = VALUES if tier == "thorough" else ["null", "1.5", '"é 日本 😀"', '"%41 +/?&=#"', "[3,1,2,1,3]", '[null,false,true,0,-1,"a","A","",[],[0],{},{"a":1}]', "[[1],[0,1],[],[1,0]]", '[{"a":1,"b":2},{"b":1,"a":2}]', '{"b":1,"a":2}', '{"a":{"b":[1,2,{"c":null}]},"d":"x"}']
         n_ok = n_skip = 0
         skipped = {}
         for iname, prog in IDENTITIES:
